@@ -135,6 +135,10 @@ func checkKleene(c *core.Ctx, ids map[string]int64, typ, short, neutral string) 
 }
 
 func runC11(c *core.Ctx) {
+	c.Rule("NULLT", "AND/OR are nullable iff an operand is")
+	checkConnectiveTypes(c, "NULLT")
+	c.Rule("NCI", "strict calls test the planned argument positions for NULL")
+	checkNullCheckIndices(c, "NCI")
 	p := c.Prog
 	ids := typeIDs(p)
 	c.Rule("ABS2", "And/Or Evaluate equal the Kleene fold for every arity (product with reference automaton)")
